@@ -78,13 +78,19 @@ MULTIBYTE = [u("\u00e9"), u("\u65e5\u672c\u8a9e"), u("\U0001f600"),
 LONG = [b"word " * 30, b"x" * 200, b" " + b"long lead " * 12,
         b"fold me " * 15 + b"\nsecond line " * 10, b"a" * 79 + b" b",
         b"a" * 80 + b" " + b"b" * 80, u("\u00e9") * 90, b"w " * 60,
-        b"sp  " * 40, b"tail " * 20 + b" ", b"x" * 1100]
+        b"sp  " * 40, b"tail " * 20 + b" ", b"x" * 1100,
+        # multi-line text whose long lines would be folded
+        b"\n " + b"w " * 60 + b"end", b"head\n  " + b"indented " * 15 + b"\nfoot",
+        b"w " * 60 + b"\n" + b"x " * 60, b"line " * 20 + b" \nnext",
+        b"a\n" + b"b " * 50 + b"\n\n" + b"c " * 50 + b"\n",
+        b"  lead " * 14 + b"\n" + b"  lead " * 14, b"\t" + b"tab " * 30 + b"\nx",
+        b"# " + b"hash " * 20 + b"\n- " + b"dash " * 20]
 
 CLASSES = [("word", WORDS, 3), ("punct", PUNCT, 5), ("space", SPACES, 3),
            ("newline", NEWLINES, 4), ("tab", TABS, 2),
            ("lookalike", LOOKALIKE, 4), ("control", CONTROL, 2),
            ("unibreak", UNIBREAK, 3), ("multibyte", MULTIBYTE, 2),
-           ("long", LONG, 1)]
+           ("long", LONG, 2)]
 _CW = [c for c in CLASSES for _ in range(c[2])]
 
 
